@@ -1,6 +1,646 @@
+/-
+  Lemmas for the recurrence-rule model (C19).  Built on, not duplicating:
+    * C03 (ICal.Props.C03): `int_rt`, `month_rt`, `decode_grammar_weekday`, `frequency_rt`, `date_grammar`,
+      `datetime_grammar`, `ddd_dispatch_date`, `ddd_dispatch_datetime`, and the value grammars;
+    * C07 (ICal.Props.C07): `escape_tokens`, `text_roundtrip` for text-typed parts;
+    * C17 (ICal.Lemmas.CDict): `canonsort_spec'`, `canonsort_perm'`, `canonsort_perm_keys`, `cdInit_self`,
+      `odSetAll_nodup`, `upper_idem'`;
+    * `splitOnChar_append`, `splitOnChar_nosep` (ICal.Lemmas.Codec).
+  Definitions used in the statements of Props/C19.lean live here: `valText`, `partOk`, `ItemOk`,
+  `RecurDomain`, `pairText`, `encode`, `rfcValOk`, `GrammarDomain`.
+-/
 import ICal.Model.Recur
 import ICal.Lemmas.CDict
 import ICal.Props.C03
 import ICal.Props.C07
+set_option linter.unusedSimpArgs false
+set_option linter.unusedVariables false
 namespace ICal.Recur
+open ICal.Codec ICal.CDict
+
+/-! ## tables (regenerated from prop.py on every run): small `decide` bridges -/
+
+theorem types_table : recurTypesTable = Gen.recurTypes := by decide
+
+theorem order_nodup : Gen.recurCanonicalOrder.Nodup := by decide
+
+/-- RSCALE, then FREQ, head the canonical order of the class -/
+theorem order_head :
+    Gen.recurCanonicalOrder =
+      ['R', 'S', 'C', 'A', 'L', 'E'] :: ['F', 'R', 'E', 'Q'] :: Gen.recurCanonicalOrder.drop 2 := by decide
+
+theorem order_tail_no_freq :
+    ['F', 'R', 'E', 'Q'] ∉ Gen.recurCanonicalOrder.drop 2 ∧ ['R', 'S', 'C', 'A', 'L', 'E'] ∉ Gen.recurCanonicalOrder.drop 2 := by
+  decide
+
+/-! ## the characters that structure a RECUR text -/
+
+def cleanC (c : Char) : Bool := c != ',' && c != ';' && c != '='
+
+/-- no `,` `;` `=` -/
+def Clean (t : Str) : Prop := ∀ c ∈ t, cleanC c = true
+
+theorem Clean.no_comma {t : Str} (h : Clean t) : ',' ∉ t := fun hm => by
+  have := h _ hm; revert this; decide
+theorem Clean.no_semi {t : Str} (h : Clean t) : ';' ∉ t := fun hm => by
+  have := h _ hm; revert this; decide
+theorem Clean.no_eq {t : Str} (h : Clean t) : '=' ∉ t := fun hm => by
+  have := h _ hm; revert this; decide
+
+theorem Clean.append {a b : Str} (ha : Clean a) (hb : Clean b) : Clean (a ++ b) := by
+  intro c hc
+  rcases List.mem_append.1 hc with h | h
+  · exact ha c h
+  · exact hb c h
+
+theorem Clean.cons {c : Char} {t : Str} (hc : cleanC c = true) (ht : Clean t) : Clean (c :: t) := by
+  intro x hx
+  rcases List.mem_cons.1 hx with rfl | h
+  · exact hc
+  · exact ht x h
+
+theorem Clean.nil : Clean [] := by intro c hc; cases hc
+
+theorem cleanC_digit (c : Char) (h : isDigit c = true) : cleanC c = true := by
+  have h1 := isDigit_ne c ',' h
+  have h2 := isDigit_ne c ';' h
+  have h3 := isDigit_ne c '=' h
+  simp [cleanC, h1, h2, h3]
+
+theorem clean_digits (s : Str) (h : ∀ c ∈ s, isDigit c = true) : Clean s :=
+  fun c hc => cleanC_digit c (h c hc)
+
+theorem clean_natToStr (n : Nat) : Clean (natToStr n) := clean_digits _ (natToStr_digits n)
+
+theorem clean_intToStr (z : Int) : Clean (intToStr z) := by
+  unfold intToStr
+  split
+  · exact Clean.cons (by decide) (clean_natToStr _)
+  · exact clean_natToStr _
+
+theorem cleanC_dtChar (c : Char) (h : dtChar c = true) : cleanC c = true := by
+  unfold dtChar at h
+  simp only [Bool.or_eq_true, beq_iff_eq] at h
+  rcases h with (h | rfl) | rfl
+  · exact cleanC_digit c h
+  · decide
+  · decide
+
+theorem clean_of_all {t : Str} (h : t.all cleanC = true) : Clean t := fun c hc => List.all_eq_true.1 h c hc
+
+/-! ## `split` undoes `join` -/
+
+theorem split_join (sep : Char) (xs : List Str) (hne : xs ≠ []) (h : ∀ x ∈ xs, sep ∉ x) :
+    splitOnChar sep (joinWith [sep] xs) = xs := by
+  induction xs with
+  | nil => exact absurd rfl hne
+  | cons x rest ih =>
+    cases rest with
+    | nil =>
+      simp only [joinWith]
+      exact splitOnChar_nosep sep x (h x (by simp))
+    | cons y ys =>
+      have e : joinWith [sep] (x :: y :: ys) = x ++ sep :: joinWith [sep] (y :: ys) := by
+        simp [joinWith]
+      rw [e, splitOnChar_append sep x _ (h x (by simp)), ih (by simp) (fun z hz => h z (by simp [hz]))]
+
+theorem mem_joinWith (sep c : Char) (xs : List Str) (h : c ∈ joinWith [sep] xs) :
+    c = sep ∨ ∃ x ∈ xs, c ∈ x := by
+  induction xs with
+  | nil => simp [joinWith] at h
+  | cons x rest ih =>
+    cases rest with
+    | nil => simp only [joinWith] at h; exact Or.inr ⟨x, by simp, h⟩
+    | cons y ys =>
+      have e : joinWith [sep] (x :: y :: ys) = x ++ sep :: joinWith [sep] (y :: ys) := by
+        simp [joinWith]
+      rw [e] at h
+      rcases List.mem_append.1 h with h1 | h1
+      · exact Or.inr ⟨x, by simp, h1⟩
+      · rcases List.mem_cons.1 h1 with h2 | h2
+        · exact Or.inl h2
+        · rcases ih h2 with h3 | ⟨z, hz, hc⟩
+          · exact Or.inl h3
+          · exact Or.inr ⟨z, by simp [hz], hc⟩
+
+/-! ## `mapRes`, `mapOpt` -/
+
+theorem mapRes_ok {α β : Type} (f : α → CRes β) (g : α → β) (l : List α) (h : ∀ a ∈ l, f a = .ok (g a)) :
+    mapRes f l = .ok (l.map g) := by
+  induction l with
+  | nil => rfl
+  | cons a as ih =>
+    simp only [mapRes, h a (by simp), ih (fun b hb => h b (by simp [hb])), List.map_cons]
+
+theorem mapRes_map {α β γ : Type} (f : β → CRes γ) (h : α → β) (l : List α) :
+    mapRes f (l.map h) = mapRes (fun a => f (h a)) l := by
+  induction l with
+  | nil => rfl
+  | cons a as ih => simp only [List.map_cons, mapRes, ih]
+
+theorem mapOpt_ok {α β : Type} (f : α → Option β) (g : α → β) (l : List α) (h : ∀ a ∈ l, f a = some (g a)) :
+    mapOpt f l = some (l.map g) := by
+  induction l with
+  | nil => rfl
+  | cons a as ih =>
+    simp only [mapOpt, h a (by simp), ih (fun b hb => h b (by simp [hb])), List.map_cons]
+
+/-! ## one part value -/
+
+/-- the text of a value (it does not depend on the key once the kinds match) -/
+def valText : PartVal → Str
+  | .int z => intTo z
+  | .month n l => vMonthTo n l
+  | .weekday t => upper t
+  | .freq t => upper t
+  | .until d => dddTo d
+  | .skip t => escapeChar t
+  | .text s => escapeChar s
+
+/-- UNTIL values of the property: a date, a floating or a UTC date-time -/
+def untilOk : DDD → Bool
+  | .atom (.date d) => d.valid
+  | .atom (.dt t) => t.valid
+  | _ => false
+
+/-- the exact round-trip domain of a text-typed value inside a RECUR text: none of `,` `;` `=` (the
+    decoder splits on them before it unescapes) and already normalised (no CRLF, no backslash-N) -/
+def textOk (s : Str) : Bool := s.all cleanC && decide (norm s = s)
+
+def ctorOk (t : Str) : Bool :=
+  match vWeekdayNew t with
+  | .ok _ => true
+  | .error _ => false
+
+/-- the value is in the domain of the part class `ty`:
+    vInt any integer; vMonth any month number >= 0, leap or not; vWeekday a string the constructor
+    accepts whose upper-case form is an RFC `weekdaynum`; vFrequency one of the seven, in any case;
+    UNTIL a valid date / date-time; vSkip a member; vText see `textOk` -/
+def partOk : PType → PartVal → Bool
+  | .int, .int _ => true
+  | .month, .month n _ => decide (0 ≤ n)
+  | .weekday, .weekday t => ctorOk t && weekdayText (upper t)
+  | .freq, .freq t => frequencies.contains (upper t)
+  | .ddd, .until d => untilOk d
+  | .skip, .skip t => skipValues.contains t
+  | .text, .text s => textOk s
+  | _, _ => false
+
+theorem vWeekdayNew_cases (s : Str) :
+    (∃ wd rel, vWeekdayNew s = .ok ⟨s, wd, rel⟩) ∨ vWeekdayNew s = .error .valueError := by
+  unfold vWeekdayNew
+  extract_lets sr body
+  split
+  · split
+    · split
+      · exact Or.inl ⟨_, _, rfl⟩
+      · exact Or.inr rfl
+    · exact Or.inr rfl
+  · exact Or.inr rfl
+
+theorem vWeekdayNew_text {s : Str} {w : WeekdayV} (h : vWeekdayNew s = .ok w) : w.text = s := by
+  rcases vWeekdayNew_cases s with ⟨wd, rel, e⟩ | e
+  · rw [e] at h; cases h; rfl
+  · rw [e] at h; cases h
+
+theorem skip_table :
+    skipValues.all (fun t => escapeChar t == t && unescapeChar t == t && t.all cleanC) = true := by decide
+
+theorem skip_facts {t : Str} (h : skipValues.contains t = true) :
+    escapeChar t = t ∧ unescapeChar t = t ∧ Clean t := by
+  have hm : t ∈ skipValues := by simpa using h
+  have := List.all_eq_true.1 skip_table t hm
+  simp only [Bool.and_eq_true, beq_iff_eq] at this
+  exact ⟨this.1.1, this.1.2, clean_of_all this.2⟩
+
+theorem freq_table : frequencies.all (fun s => s.all cleanC) = true := by decide
+
+theorem escapeChar_of_norm {s : Str} (h : norm s = s) : escapeChar s = s.flatMap escC := by
+  rw [ICal.C07.escape_tokens, h]
+
+theorem clean_escC (d : Char) (h : cleanC d = true) : Clean (escC d) := by
+  have h2 : d ≠ ';' := by intro e; subst e; revert h; decide
+  have h3 : d ≠ ',' := by intro e; subst e; revert h; decide
+  unfold escC
+  split
+  · exact Clean.cons (by decide) (Clean.cons (by decide) Clean.nil)
+  · split
+    · exact Clean.cons (by decide) (Clean.cons (by decide) Clean.nil)
+    · exact Clean.cons h Clean.nil
+
+theorem clean_text {s : Str} (h : textOk s = true) : Clean (escapeChar s) := by
+  simp only [textOk, Bool.and_eq_true, decide_eq_true_eq] at h
+  rw [escapeChar_of_norm h.2]
+  intro c hc
+  obtain ⟨d, hd, hcd⟩ := List.mem_flatMap.1 hc
+  exact clean_escC d (List.all_eq_true.1 h.1 d hd) c hcd
+
+theorem weekdayText_some {t : Str} (h : weekdayText t = true) : ∃ i r, rfcWeekdayNum t = some (i, r) := by
+  unfold weekdayText at h
+  obtain ⟨⟨i, r⟩, hv⟩ := Option.isSome_iff_exists.1 h
+  exact ⟨i, r, hv⟩
+
+theorem clean_weekday {t : Str} (h : weekdayText t = true) : Clean t := by
+  obtain ⟨i, r, hv⟩ := weekdayText_some h
+  obtain ⟨sgn, rel, wd, rfl, hs, _, hd, hw, _, _⟩ := rfcWeekdayNum_inv hv
+  refine Clean.append (Clean.append ?_ (clean_digits rel hd)) ?_
+  · rcases hs with rfl | rfl | rfl
+    · exact Clean.nil
+    · exact Clean.cons (by decide) Clean.nil
+    · exact Clean.cons (by decide) Clean.nil
+  · rcases mem_weekDays hw with rfl | rfl | rfl | rfl | rfl | rfl | rfl <;>
+      exact Clean.cons (by decide) (Clean.cons (by decide) Clean.nil)
+
+theorem clean_date (d : PDate) (h : d.valid = true) : Clean (vDateTo d) := by
+  obtain ⟨y, m, dd⟩ := d
+  have hv : validDate y m dd = true := h
+  obtain ⟨hy, hm, hd⟩ := validDate_bounds hv
+  rw [vDateTo_eq y m dd hy hm hd]
+  exact fun c hc => cleanC_dtChar c (dtChars_dateChars y m dd hy hm hd c hc)
+
+theorem clean_datetime (v : PDateTime) (hv : v.valid = true) : Clean (vDatetimeTo v) := by
+  rw [vDatetimeTo_eq v hv]
+  obtain ⟨⟨y, m, d⟩, h, mi, s, z⟩ := v
+  simp only [PDateTime.valid, PDate.valid, Bool.and_eq_true] at hv
+  obtain ⟨hy, hm, hd⟩ := validDate_bounds hv.1
+  obtain ⟨hh, hmi, hs⟩ := validTime_bounds hv.2
+  refine Clean.append (fun c hc => cleanC_dtChar c (dtChars_dateChars y m d hy hm hd c hc)) ?_
+  refine Clean.cons (by decide) (Clean.append ?_ ?_)
+  · exact fun c hc => cleanC_dtChar c (dtChars_hmsChars h mi s (by omega) (by omega) (by omega) c hc)
+  · cases z
+    · exact Clean.nil
+    · exact Clean.cons (by decide) Clean.nil
+
+/-- an encoded value never contains `,` `;` `=` -/
+theorem clean_valText (ty : PType) (v : PartVal) (h : partOk ty v = true) : Clean (valText v) := by
+  cases ty <;> cases v <;> simp only [partOk, Bool.false_eq_true] at h
+  case int.int z => exact clean_intToStr z
+  case month.month n l =>
+    unfold valText vMonthTo
+    refine Clean.append (clean_intToStr n) ?_
+    cases l
+    · exact Clean.nil
+    · exact Clean.cons (by decide) Clean.nil
+  case weekday.weekday t =>
+    simp only [Bool.and_eq_true] at h
+    exact clean_weekday h.2
+  case freq.freq t =>
+    have hm : upper t ∈ frequencies := by simpa using h
+    exact clean_of_all (List.all_eq_true.1 freq_table _ hm)
+  case ddd.until d =>
+    unfold untilOk at h
+    split at h
+    · exact clean_date _ h
+    · exact clean_datetime _ h
+    · cases h
+  case skip.skip t =>
+    obtain ⟨h1, _, h3⟩ := skip_facts h
+    show Clean (escapeChar t)
+    rw [h1]; exact h3
+  case text.text s => exact clean_text h
+
+/-- `typ(val).to_ical()` succeeds with `valText` on the domain -/
+theorem partTo_ok (ty : PType) (v : PartVal) (h : partOk ty v = true) : partTo ty v = .ok (valText v) := by
+  cases ty <;> cases v <;> simp only [partOk, Bool.false_eq_true] at h
+  case int.int z => rfl
+  case month.month n l => rfl
+  case weekday.weekday t =>
+    simp only [Bool.and_eq_true] at h
+    have hc := h.1
+    unfold ctorOk at hc
+    show Except.map vWeekdayTo (vWeekdayNew t) = _
+    split at hc
+    · next w hw =>
+      rw [hw]
+      show Except.ok (vWeekdayTo w) = _
+      unfold vWeekdayTo
+      rw [vWeekdayNew_text hw]; rfl
+    · cases hc
+  case freq.freq t => simp only [partTo, h, if_true]; rfl
+  case ddd.until d => rfl
+  case skip.skip t => simp only [partTo, h, if_true]; rfl
+  case text.text s => rfl
+
+/-- decoding the text of a value gives the value as its class normalises it -/
+theorem partFrom_valText (ty : PType) (v : PartVal) (h : partOk ty v = true) :
+    partFrom ty (valText v) = .ok (normVal v) := by
+  cases ty <;> cases v <;> simp only [partOk, Bool.false_eq_true] at h
+  case int.int z =>
+    show (intFrom (intTo z)).map PartVal.int = _
+    rw [ICal.C03.int_rt]; rfl
+  case month.month n l =>
+    have hn : 0 ≤ n := by simpa using h
+    obtain ⟨k, rfl⟩ := Int.eq_ofNat_of_zero_le hn
+    show (vMonthFrom (vMonthTo (k : Int) l)).map (fun p => PartVal.month p.1 p.2) = _
+    rw [ICal.C03.month_rt]; rfl
+  case weekday.weekday t =>
+    simp only [Bool.and_eq_true] at h
+    obtain ⟨i, r, hv⟩ := weekdayText_some h.2
+    obtain ⟨wd, _, hdec⟩ := ICal.C03.decode_grammar_weekday _ i r hv
+    show (vWeekdayFrom (upper t)).map (fun w => PartVal.weekday w.text) = _
+    rw [hdec]; rfl
+  case freq.freq t =>
+    have hm : upper t ∈ frequencies := by simpa using h
+    have := ICal.C03.frequency_rt (upper t) hm
+    unfold freqTo at this
+    rw [upper_idem'] at this
+    show (freqFrom (upper t)).map PartVal.freq = _
+    rw [this]; rfl
+  case ddd.until d =>
+    unfold untilOk at h
+    split at h
+    · next pd =>
+      have := (ICal.C03.ddd_dispatch_date _ pd (ICal.C03.date_grammar pd h)).2
+      show (dddFrom (vDateTo pd)).map PartVal.until = _
+      rw [this]; rfl
+    · next pt =>
+      have := (ICal.C03.ddd_dispatch_datetime _ pt (ICal.C03.datetime_grammar pt h)).2
+      show (dddFrom (vDatetimeTo pt)).map PartVal.until = _
+      rw [this]; rfl
+    · cases h
+  case skip.skip t =>
+    obtain ⟨h1, h2, _⟩ := skip_facts h
+    show partFrom PType.skip (escapeChar t) = _
+    unfold partFrom
+    simp only [h1, h2, h, if_true]
+    rfl
+  case text.text s =>
+    simp only [textOk, Bool.and_eq_true, decide_eq_true_eq] at h
+    have := ICal.C07.text_roundtrip s
+    unfold vTextFromIcal vTextToIcal at this
+    show Except.ok (PartVal.text (unescapeChar (escapeChar s))) = _
+    rw [this, h.2]; rfl
+
+theorem valText_normVal (v : PartVal) : valText (normVal v) = valText v := by
+  cases v <;> simp [normVal, valText, upper_idem']
+
+/-! ## one rule part `KEY=v1,v2,...` -/
+
+/-- a key with its value list is in the domain: the key holds no `=` `;` and is stored upper-cased,
+    the list is not empty, every value is in the domain of the class the key selects -/
+def ItemOk (kv : Str × List PartVal) : Prop :=
+  '=' ∉ kv.1 ∧ ';' ∉ kv.1 ∧ upper kv.1 = kv.1 ∧ kv.2 ≠ [] ∧ ∀ v ∈ kv.2, partOk (recurTypeOf kv.1) v = true
+
+/-- the text of one part -/
+def pairText (kv : Str × List PartVal) : Str := kv.1 ++ '=' :: joinWith [','] (kv.2.map valText)
+
+def normItem (kv : Str × List PartVal) : Str × List PartVal := (kv.1, kv.2.map normVal)
+
+theorem pairTo_ok (kv : Str × List PartVal) (h : ItemOk kv) : pairTo kv.1 kv.2 = .ok (pairText kv) := by
+  unfold pairTo
+  rw [mapRes_ok _ valText kv.2 (fun v hv => partTo_ok _ v (h.2.2.2.2 v hv))]
+  rfl
+
+theorem valTexts_clean (kv : Str × List PartVal) (h : ItemOk kv) : ∀ x ∈ kv.2.map valText, Clean x := by
+  intro x hx
+  obtain ⟨v, hv, rfl⟩ := List.mem_map.1 hx
+  exact clean_valText _ v (h.2.2.2.2 v hv)
+
+theorem split_pairText (kv : Str × List PartVal) (h : ItemOk kv) :
+    splitOnChar '=' (pairText kv) = [kv.1, joinWith [','] (kv.2.map valText)] := by
+  unfold pairText
+  rw [splitOnChar_append '=' kv.1 _ h.1, splitOnChar_nosep]
+  intro hm
+  rcases mem_joinWith ',' '=' _ hm with e | ⟨x, hx, hc⟩
+  · revert e; decide
+  · exact (valTexts_clean kv h x hx).no_eq hc
+
+theorem pairText_no_semi (kv : Str × List PartVal) (h : ItemOk kv) : ';' ∉ pairText kv := by
+  unfold pairText
+  intro hm
+  rcases List.mem_append.1 hm with h1 | h1
+  · exact h.2.1 h1
+  · rcases List.mem_cons.1 h1 with e | h2
+    · revert e; decide
+    · rcases mem_joinWith ',' ';' _ h2 with e | ⟨x, hx, hc⟩
+      · revert e; decide
+      · exact (valTexts_clean kv h x hx).no_semi hc
+
+theorem parseType_join (kv : Str × List PartVal) (h : ItemOk kv) :
+    parseType kv.1 (joinWith [','] (kv.2.map valText)) = .ok (kv.2.map normVal) := by
+  unfold parseType
+  rw [split_join ',' _ (by simpa using h.2.2.2.1) (fun x hx => (valTexts_clean kv h x hx).no_comma), mapRes_map]
+  exact mapRes_ok _ normVal kv.2 (fun v hv => partFrom_valText _ v (h.2.2.2.2 v hv))
+
+/-- the decoder loop on the texts of in-domain parts: one assignment per part -/
+theorem recurFromGo_pairs (items : List (Str × List PartVal)) (h : ∀ kv ∈ items, ItemOk kv) (m : Rule) :
+    recurFromGo (items.map pairText) m = .ok (odSetAll m (items.map normItem)) := by
+  induction items generalizing m with
+  | nil => rfl
+  | cons kv rest ih =>
+    have hk := h kv (by simp)
+    simp only [List.map_cons, recurFromGo, split_pairText kv hk, parseType_join kv hk]
+    rw [ih (fun x hx => h x (by simp [hx]))]
+    simp only [odSetAll, List.foldl_cons, cdSetitem, normItem, hk.2.2.1]
+
+/-! ## `sorted_items` of a well-formed dictionary -/
+
+theorem mem_sortedItems {V : Type} {s : Store V} {order : List Str} (hinv : Inv upper s) {kv : Str × V}
+    (h : kv ∈ cdSortedItems upper s order) : kv ∈ s := by
+  unfold cdSortedItems at h
+  obtain ⟨k, hk, hv⟩ := List.mem_filterMap.1 h
+  have hks : k ∈ odKeys s := (mem_canonsort _ _ k).1 hk
+  rw [hinv.2 k hks] at hv
+  cases hg : odGet s k with
+  | none => rw [hg] at hv; cases hv
+  | some v =>
+    rw [hg] at hv
+    cases hv
+    exact mem_of_odGet s k v hg
+
+theorem keys_filterMap {V : Type} (s : Store V) (l : List Str) (h : ∀ k ∈ l, k ∈ odKeys s) :
+    odKeys (l.filterMap (fun k => (odGet s k).map (fun v => (k, v)))) = l := by
+  induction l with
+  | nil => rfl
+  | cons k rest ih =>
+    have hk := h k (by simp)
+    cases hg : odGet s k with
+    | none => exact absurd hk ((odGet_none s k).1 hg)
+    | some v =>
+      simp only [List.filterMap_cons, hg, Option.map_some, odKeys_cons]
+      rw [ih (fun x hx => h x (by simp [hx]))]
+
+theorem sortedItems_eq {V : Type} {s : Store V} (order : List Str) (hinv : Inv upper s) :
+    cdSortedItems upper s order =
+      (canonsort (odKeys s) order).filterMap (fun k => (odGet s k).map (fun v => (k, v))) := by
+  unfold cdSortedItems
+  apply filterMap_congr'
+  intro k hk
+  rw [hinv.2 k ((mem_canonsort _ _ k).1 hk)]
+
+theorem keys_sortedItems {V : Type} {s : Store V} (order : List Str) (hinv : Inv upper s) :
+    odKeys (cdSortedItems upper s order) = canonsort (odKeys s) order := by
+  rw [sortedItems_eq order hinv]
+  exact keys_filterMap s _ (fun k hk => (mem_canonsort _ _ k).1 hk)
+
+theorem inv_sortedItems {V : Type} {s : Store V} (order : List Str) (hinv : Inv upper s) :
+    Inv upper (cdSortedItems upper s order) := by
+  constructor
+  · rw [keys_sortedItems order hinv]
+    exact (canonsort_perm_keys _ _).nodup_iff.2 hinv.1
+  · intro k hk
+    rw [keys_sortedItems order hinv] at hk
+    exact hinv.2 k ((mem_canonsort _ _ k).1 hk)
+
+theorem odGet_mapVals {V W : Type} (f : V → W) (s : Store V) (k : Str) :
+    odGet (s.map (fun kv => (kv.1, f kv.2))) k = (odGet s k).map f := by
+  induction s with
+  | nil => rfl
+  | cons p r ih =>
+    obtain ⟨k', v⟩ := p
+    by_cases e : k' = k
+    · simp [odGet, e]
+    · simp [odGet, e, ih]
+
+theorem odKeys_mapVals {V W : Type} (f : V → W) (s : Store V) :
+    odKeys (s.map (fun kv => (kv.1, f kv.2))) = odKeys s := by
+  simp [odKeys, List.map_map, Function.comp_def]
+
+/-- sorting commutes with a map on the values -/
+theorem sortedItems_mapVals {V W : Type} (f : V → W) (s : Store V) (order : List Str) :
+    cdSortedItems upper (s.map (fun kv => (kv.1, f kv.2))) order =
+      (cdSortedItems upper s order).map (fun kv => (kv.1, f kv.2)) := by
+  unfold cdSortedItems
+  rw [odKeys_mapVals, List.map_filterMap]
+  apply filterMap_congr'
+  intro k _
+  rw [odGet_mapVals]
+  cases odGet s (upper k) <;> rfl
+
+/-- sorting twice is sorting once -/
+theorem sortedItems_idem {V : Type} {s : Store V} (order : List Str) (hinv : Inv upper s) :
+    cdSortedItems upper (cdSortedItems upper s order) order = cdSortedItems upper s order := by
+  have hinv' := inv_sortedItems order hinv
+  rw [sortedItems_eq order hinv', keys_sortedItems order hinv,
+    canonsort_perm' order _ _ (canonsort_perm_keys (odKeys s) order), sortedItems_eq order hinv]
+  apply filterMap_congr'
+  intro k hk
+  have hks : k ∈ odKeys s := (mem_canonsort _ _ k).1 hk
+  cases hg : odGet s k with
+  | none => exact absurd hks ((odGet_none s k).1 hg)
+  | some v =>
+    have hm : (k, v) ∈ (canonsort (odKeys s) order).filterMap (fun k => (odGet s k).map (fun v => (k, v))) :=
+      List.mem_filterMap.2 ⟨k, hk, by simp [hg]⟩
+    rw [← sortedItems_eq order hinv] at hm ⊢
+    rw [odGet_of_mem _ hinv'.1 k v hm]
+
+/-! ## whole rules -/
+
+/-- the domain of the round trip: the dictionary invariant (keys distinct and upper-cased - what
+    `CaselessDict` maintains) and every part in its domain -/
+def RecurDomain (r : Rule) : Prop := Inv upper r ∧ ∀ kv ∈ r, ItemOk kv
+
+/-- the text `to_ical` writes for an in-domain rule -/
+def encode (r : Rule) : Str := joinWith [';'] ((recurCanon r).map pairText)
+
+theorem canon_items_ok {r : Rule} (h : RecurDomain r) : ∀ kv ∈ recurCanon r, ItemOk kv :=
+  fun kv hkv => h.2 kv (mem_sortedItems h.1 hkv)
+
+theorem recurTo_eq {r : Rule} (h : RecurDomain r) : recurTo r = .ok (encode r) := by
+  unfold recurTo encode recurCanon
+  rw [mapRes_ok (fun kv => pairTo kv.1 kv.2) pairText (recurItems r)
+    (fun kv hkv => pairTo_ok kv (canon_items_ok h kv hkv))]
+  rfl
+
+theorem canon_normRule (r : Rule) : recurCanon (normRule r) = (recurCanon r).map normItem :=
+  sortedItems_mapVals (fun vs : List PartVal => vs.map normVal) r Gen.recurCanonicalOrder
+
+theorem canon_ne_nil {r : Rule} (hinv : Inv upper r) (hne : r ≠ []) : recurCanon r ≠ [] := by
+  intro e
+  have hk := keys_sortedItems Gen.recurCanonicalOrder hinv
+  have hp := (canonsort_perm_keys (odKeys r) Gen.recurCanonicalOrder).length_eq
+  unfold recurCanon recurItems at e
+  rw [e] at hk
+  rw [← hk] at hp
+  cases r with
+  | nil => exact hne rfl
+  | cons a as => simp at hp
+
+theorem split_encode {r : Rule} (h : RecurDomain r) (hne : r ≠ []) :
+    splitOnChar ';' (encode r) = (recurCanon r).map pairText := by
+  unfold encode
+  apply split_join
+  · simpa using canon_ne_nil h.1 hne
+  · intro x hx
+    obtain ⟨kv, hkv, rfl⟩ := List.mem_map.1 hx
+    exact pairText_no_semi kv (canon_items_ok h kv hkv)
+
+/-- `from_ical` on the text of an in-domain rule -/
+theorem recurFrom_encode {r : Rule} (h : RecurDomain r) :
+    recurFrom (encode r) = .ok (recurCanon (normRule r)) := by
+  by_cases hne : r = []
+  · subst hne
+    have e : recurCanon ([] : Rule) = [] := by
+      simp [recurCanon, recurItems, cdSortedItems, canonsort, odKeys]
+    have e2 : normRule ([] : Rule) = [] := rfl
+    rw [e2, e]
+    unfold encode
+    rw [e]
+    decide
+  · unfold recurFrom
+    rw [split_encode h hne, recurFromGo_pairs _ (canon_items_ok h), canon_normRule]
+    have hinv : Inv upper ((recurCanon r).map normItem) := by
+      have := inv_sortedItems Gen.recurCanonicalOrder h.1
+      have hk : odKeys ((recurCanon r).map normItem) = odKeys (recurCanon r) :=
+        odKeys_mapVals (fun vs : List PartVal => vs.map normVal) (recurCanon r)
+      exact ⟨by rw [hk]; exact this.1, by rw [hk]; exact this.2⟩
+    rw [odSetAll_nodup _ hinv.1]
+    show Except.ok (cdInit upper _) = _
+    rw [cdInit_self upper_idem' hinv]
+
+/-! ## normalised values stay in the domain -/
+
+theorem ctorOk_of_weekdayText {t : Str} (h : weekdayText t = true) : ctorOk t = true := by
+  obtain ⟨i, r, hv⟩ := weekdayText_some h
+  obtain ⟨wd, _, hdec⟩ := ICal.C03.decode_grammar_weekday t i r hv
+  have hu : upper t = t := rfcWeekdayNum_upper hv
+  unfold vWeekdayFrom at hdec
+  rw [hu] at hdec
+  unfold ctorOk
+  rw [hdec]
+
+theorem partOk_normVal (ty : PType) (v : PartVal) (h : partOk ty v = true) : partOk ty (normVal v) = true := by
+  cases ty <;> cases v <;> simp only [partOk, Bool.false_eq_true] at h <;> first | exact h | rfl | skip
+  case weekday.weekday t =>
+    simp only [Bool.and_eq_true] at h
+    simp only [normVal, partOk, upper_idem', Bool.and_eq_true]
+    exact ⟨ctorOk_of_weekdayText h.2, h.2⟩
+  case freq.freq t =>
+    simp only [normVal, partOk, upper_idem']
+    exact h
+
+theorem itemOk_normItem (kv : Str × List PartVal) (h : ItemOk kv) : ItemOk (normItem kv) := by
+  refine ⟨h.1, h.2.1, h.2.2.1, ?_, ?_⟩
+  · simpa [normItem] using h.2.2.2.1
+  · intro v hv
+    obtain ⟨w, hw, rfl⟩ := List.mem_map.1 hv
+    exact partOk_normVal _ w (h.2.2.2.2 w hw)
+
+theorem pairText_normItem (kv : Str × List PartVal) : pairText (normItem kv) = pairText kv := by
+  simp [pairText, normItem, List.map_map, Function.comp_def, valText_normVal]
+
+/-- the decoded rule is again in the domain -/
+theorem domain_decoded {r : Rule} (h : RecurDomain r) : RecurDomain (recurCanon (normRule r)) := by
+  rw [canon_normRule]
+  have hinv := inv_sortedItems Gen.recurCanonicalOrder h.1
+  have hk : odKeys ((recurCanon r).map normItem) = odKeys (recurCanon r) :=
+    odKeys_mapVals (fun vs : List PartVal => vs.map normVal) (recurCanon r)
+  refine ⟨⟨by rw [hk]; exact hinv.1, by rw [hk]; exact hinv.2⟩, ?_⟩
+  intro kv hkv
+  obtain ⟨x, hx, rfl⟩ := List.mem_map.1 hkv
+  exact itemOk_normItem x (canon_items_ok h x hx)
+
+theorem encode_decoded {r : Rule} (h : RecurDomain r) : encode (recurCanon (normRule r)) = encode r := by
+  unfold encode
+  have e : recurCanon (recurCanon (normRule r)) = recurCanon (normRule r) := by
+    have hn : Inv upper (normRule r) := by
+      have hk : odKeys (normRule r) = odKeys r := odKeys_mapVals (fun vs : List PartVal => vs.map normVal) r
+      exact ⟨by rw [hk]; exact h.1.1, by rw [hk]; exact h.1.2⟩
+    exact sortedItems_idem Gen.recurCanonicalOrder hn
+  rw [e, canon_normRule, List.map_map]
+  congr 1
+  apply List.map_congr_left
+  intro kv _
+  exact pairText_normItem kv
+
 end ICal.Recur
